@@ -27,11 +27,12 @@ LEVEL = "other"
 MANIFEST = {
     "text": "Static totality check of postcard-dyn: every panic site on every explored path of every function is enumerated and discharged (guards by "
             "linear reasoning, length facts, bit-affine proofs for the helper copies); input-counted decoder loops must make progress and no allocation may be "
-            "sized by decoded values; every kind the encoder accepts has a decoder arm. Reachability of an unimplemented arm or an unguarded index is a "
+            "sized by decoded values; every kind the encoder accepts has a decoder arm; outside std the codec may call only serde_json's shallow Value/Map/Number "
+            "operations (a call into any other crate, whose recursion depth / panics / allocation are not established here, fails closed). Reachability of an unimplemented arm or an unguarded index is a "
             "question about all schemas/inputs, decided per arm.",
     "note": "Known finding (listed in known_findings.jsonl): the Seq arm loops `0..len` with an attacker-chosen len and a body that may consume no input "
             "(zero-width element schemas), so time/memory are unbounded in the input length. Trusted: serde_json does not panic; recursion depth unbounded.",
-    "technique": "static analysis: panic-site enumeration with LIN/BIT discharge + loop-progress rule + arm-coverage sibling rule",
+    "technique": "static analysis: panic-site enumeration with LIN/BIT discharge + loop-progress rule + arm-coverage sibling rule + who-may-be-called rule over resolved callees",
 }
 
 
